@@ -1064,3 +1064,111 @@ def judged_at_callers(prog, funcs):
         if textual and textual == covered:
             out.add(f.key)
     return out
+
+
+# ---- search loop with a sentinel: the continuation is moved to where the element is found -------------------------
+def _stores(node, name):
+    return [n for n in ast.walk(node) if isinstance(n, ast.Name) and n.id == name and isinstance(n.ctx, (ast.Store, ast.Del))]
+
+
+def _free_jump(stmts):
+    """a break / continue that would bind to an enclosing loop when the statements are moved into one"""
+    def walk(n, in_loop):
+        if isinstance(n, (ast.Break, ast.Continue)) and not in_loop:
+            return True
+        if isinstance(n, (ast.FunctionDef, ast.ClassDef, ast.Lambda)):
+            return False
+        inner = in_loop or isinstance(n, (ast.For, ast.While))
+        return any(walk(c, inner) for c in ast.iter_child_nodes(n))
+    return any(walk(s, False) for s in stmts)
+
+
+def _is_none_test(t, name):
+    """True when `t` is `name is None`, False when `name is not None`, else None"""
+    if isinstance(t, ast.Compare) and len(t.ops) == 1 and isinstance(t.left, ast.Name) and t.left.id == name and \
+            isinstance(t.comparators[0], ast.Constant) and t.comparators[0].value is None:
+        if isinstance(t.ops[0], (ast.Is, ast.Eq)):
+            return True
+        if isinstance(t.ops[0], (ast.IsNot, ast.NotEq)):
+            return False
+    if isinstance(t, ast.UnaryOp) and isinstance(t.op, ast.Not):
+        r = _is_none_test(t.operand, name)
+        return None if r is None else (not r)
+    return None
+
+
+def _sink_block(stmts, fn_node):
+    out = list(stmts)
+    for j, loop in enumerate(out):
+        if not isinstance(loop, ast.For) or loop.orelse or not isinstance(loop.target, ast.Name) or j + 1 >= len(out):
+            continue
+        test = out[j + 1]
+        if not isinstance(test, ast.If):
+            continue
+        elem = loop.target.id
+        # the hit:  x = <element>; break   somewhere under `if`s of the loop body
+        hit = None
+
+        def find(block):
+            nonlocal hit
+            for k, s in enumerate(block):
+                if isinstance(s, ast.Assign) and len(s.targets) == 1 and isinstance(s.targets[0], ast.Name) and \
+                        isinstance(s.value, ast.Name) and s.value.id == elem and k + 1 < len(block) and isinstance(block[k + 1], ast.Break):
+                    if hit is not None:
+                        hit = False
+                    elif hit is None:
+                        hit = (block, k, s.targets[0].id)
+                elif isinstance(s, ast.If):
+                    find(s.body)
+                    find(s.orelse)
+        find(loop.body)
+        if not hit:
+            continue
+        block, k, x = hit
+        isnone = _is_none_test(test.test, x)
+        if isnone is None:
+            continue
+        # x is None before the loop, and is stored nowhere else
+        init = [i for i in range(j) if isinstance(out[i], ast.Assign) and len(out[i].targets) == 1 and isinstance(out[i].targets[0], ast.Name)
+                and out[i].targets[0].id == x and isinstance(out[i].value, ast.Constant) and out[i].value.value is None]
+        if not init:
+            continue
+        i0 = init[-1]
+        if any(_stores(s, x) for s in out[i0 + 1:j]) or len(_stores(fn_node, x)) != 2:
+            continue
+        if len([n for n in ast.walk(loop) if isinstance(n, ast.Break)]) != 1 or _stores(loop, elem)[1:]:
+            continue
+        found_part = test.orelse if isnone else test.body
+        missing_part = test.body if isnone else test.orelse
+        tail = out[j + 2:]
+        moved = list(found_part) + list(tail)
+        if _free_jump(moved):
+            continue
+        # found: the continuation runs where the element is known; not found: the other branch, then the same continuation
+        block[k + 1:k + 2] = [clone(s) for s in moved] + [block[k + 1]]
+        none_test = ast.copy_location(ast.Compare(left=ast.Name(id=x, ctx=ast.Load()), ops=[ast.Is()], comparators=[ast.Constant(value=None)]), test)
+        after = list(missing_part) + ([] if (missing_part and _terminates(missing_part)) else [clone(s) for s in tail])
+        new_if = ast.copy_location(ast.If(test=none_test, body=after or [ast.Pass()], orelse=[]), test)
+        out = out[:j + 1] + [new_if]
+        return _sink_block(out, fn_node), True
+    return out, False
+
+
+def sink_search_tails(fi):
+    """`x = None; for s in L: if c: x = s; break` followed by `if x is None: A else: B` and a continuation T  becomes
+    `... if c: x = s; B; T; break` followed by `if x is None: A; T` - the same executions (the loop does nothing after the
+    hit), with what happens to the element found written where the element is the loop variable.  Applied to the
+    function's own statement list only; returns a FuncInfo (the same one when nothing matched)."""
+    node = clone(fi.node)
+    body, changed = _sink_block(node.body, node)
+    if not changed:
+        return fi
+    node.body = body
+    ast.fix_missing_locations(node)
+    for n in ast.walk(node):
+        for child in ast.iter_child_nodes(n):
+            child._parent = n
+    node._parent = getattr(fi.node, '_parent', None)
+    out = copy.copy(fi)
+    out.node = node
+    return out
